@@ -2593,7 +2593,7 @@ func (self *LockDB) doCheckLockWaitPriority(lockManager *LockManager, lock *Lock
 }
 
 func (self *LockDB) wakeUpWaitLocks(lockManager *LockManager, serverProtocol ServerProtocol) {
-	if lockManager.waited {
+	if lockManager.waited && self.status == STATE_LEADER {
 		lockManager.glock.Lock()
 		waitLock := lockManager.GetWaitLock()
 		for waitLock != nil {
